@@ -141,6 +141,13 @@ def run(ck):
                     f = funs[fname]
                     if f["kind"] != "defun":
                         continue
+                    # a function whose body is just a parameter or a constant (possibly under lets whose bindings it ignores) is
+                    # folded away at its call sites even without -O: no code of it remains to be described
+                    core = f["body"]
+                    while core[0] == "let":
+                        core = core[3]
+                    if core[0] in ("var", "const", "int", "hex", "str", "q"):
+                        continue
                     ncomplete += 1
                     # functions with byte-identical code share one key (the table is keyed by code hash): the entry then
                     # carries the name of one of them; the fixed same-code programs are covered when any of their names is
